@@ -82,7 +82,12 @@ Clash == {Ap(o, <<x>>, <<>>) : o \in Unary, x \in LeafC}
          \cup {AppA(ity, <<d>>) : ity \in {TInt, TSort("Int")}, d \in LeafC}
          \cup {AppA(ity, <<d, k, v>>) : ity \in {TInt, TSort("Int")}, d \in {KI, Sym("x", TInt)}, k \in {IntC(2)}, v \in {KI, Sym("x", TInt)}}
 
-Corpus == CASE Layer = "APPLY" -> Un \cup Bin \cup Ter \cup NA \cup Idx \cup Funs \cup ArrVals
+\* the boundary width 0 (which pySMT lets one declare) against ordinary widths, in both operand positions
+Z0 == Sym("z0", TBV(0))
+ZeroW == {Ap(o, <<x, y>>, <<>>) : o \in {"bv_ult", "bv_ule", "bv_slt", "bv_sle", "equals", "bv_and", "bv_add", "bv_comp", "bv_concat", "bv_udiv"},
+                                    x \in {Z0, Sym("e", TBV(1)), Sym("b", TBV(2))}, y \in {Z0, Sym("e", TBV(1)), Sym("b", TBV(2)), Sym("x", TInt)}}
+         \cup {Ap("ite", <<Sym("p", TBool), x, y>>, <<>>) : x \in {Z0, Sym("b", TBV(2))}, y \in {Z0, Sym("b", TBV(2))}}
+Corpus == CASE Layer = "APPLY" -> Un \cup Bin \cup Ter \cup NA \cup Idx \cup Funs \cup ArrVals \cup ZeroW
             [] Layer = "QUANT" -> Quants
             [] Layer = "CLASH" -> Clash
 
